@@ -4,6 +4,7 @@ import (
 	"fmt"
 	"os"
 	"testing"
+	"time"
 
 	"verifharness/hx"
 )
@@ -18,6 +19,9 @@ func TestMain(m *testing.M) {
 		}
 		os.Exit(0)
 	}
+	// The process-wide local time zone is set to something that is not UTC (the sandbox runs in UTC): nothing
+	// the library computes may depend on where the process happens to run.
+	time.Local = time.FixedZone("harness-local", 5*3600+1800)
 	code := m.Run()
 	hx.FlushAll()
 	os.Exit(code)
